@@ -200,7 +200,8 @@ def main():
         # harness set does not build against this tree
         log("INCONCLUSIVE: the harness crate does not build against this tree (see below)")
         log(warm["tail"])
-        write_evidence(prop, tier, seed, [], time.time() - t0, 0, inconclusive=["build failed"])
+        if not args.only and not dev and not os.environ.get("VERIF_NO_EVIDENCE"):
+            write_evidence(prop, tier, seed, [], time.time() - t0, 0, inconclusive=["build failed"])
         sys.exit(2)
     for t in tdirs[1:]:
         shutil.copytree(tdirs[0], t, symlinks=True)
@@ -317,8 +318,8 @@ def write_evidence(prop, tier, seed, results, wall, violations, inconclusive):
         solver_s += r["solver_s"]
         funcs.update(h.funcs)
         stubs.update(r["stubs"])
-        reach = [d for d, s in covers if d.startswith("REACH:")]
-        reach_sat = [d for d, s in covers if d.startswith("REACH:") and s == "SATISFIED"]
+        reach = [d for d, s in covers if d.startswith("REACH:") and not any(re.search(e, d) for e in h.exempt)]
+        reach_sat = [d for d, s in covers if d.startswith("REACH:") and s == "SATISFIED" and not any(re.search(e, d) for e in h.exempt)]
         info_sat = [d for d, s in covers if d.startswith("INFO:") and s == "SATISFIED"]
         if v["status"] in ("PASS", "KNOWN") and reach and len(reach) == len(reach_sat):
             nontrivial += 1
